@@ -1,9 +1,11 @@
 //! Runtime-library operations: Remote (C20), IntoResponse (C11), builders (C10).
 #![allow(dead_code, deprecated)]
 use sylvia::cw_std::{
-    from_json, to_json_string, Addr, AnyMsg, BankMsg, Binary, Coin, CosmosMsg, CustomMsg, DistributionMsg, Empty, Event, GovMsg, IbcMsg,
-    IbcTimeout, ReplyOn, Response, StakingMsg, SubMsg, Timestamp, VoteOption, WasmMsg,
+    from_json, to_json_string, Addr, BankMsg, Binary, Coin, CosmosMsg, CustomMsg, DistributionMsg, Empty, Event, ReplyOn, Response, StakingMsg,
+    SubMsg, WasmMsg,
 };
+#[cfg(feature = "full")]
+use sylvia::cw_std::{AnyMsg, GovMsg, IbcMsg, IbcTimeout, Timestamp, VoteOption};
 use sylvia::into_response::IntoResponse;
 use sylvia::types::Remote;
 
@@ -170,7 +172,9 @@ fn cosmos_msg(kind: &str, n: u64) -> Option<CosmosMsg<Empty>> {
         "custom" => CosmosMsg::Custom(Empty {}),
         "staking" => CosmosMsg::Staking(StakingMsg::Delegate { validator: s, amount: Coin::new(n as u128, "ustake") }),
         "distribution" => CosmosMsg::Distribution(DistributionMsg::SetWithdrawAddress { address: s }),
+        #[cfg(feature = "full")]
         "ibc" => CosmosMsg::Ibc(IbcMsg::CloseChannel { channel_id: s }),
+        #[cfg(feature = "full")]
         "ibc_transfer" => CosmosMsg::Ibc(IbcMsg::Transfer {
             channel_id: s.clone(),
             to_address: s,
@@ -178,8 +182,11 @@ fn cosmos_msg(kind: &str, n: u64) -> Option<CosmosMsg<Empty>> {
             timeout: IbcTimeout::with_timestamp(Timestamp::from_nanos(n)),
             memo: None,
         }),
+        #[cfg(feature = "full")]
         "gov" => CosmosMsg::Gov(GovMsg::Vote { proposal_id: n, option: VoteOption::Yes }),
+        #[cfg(feature = "full")]
         "any" => CosmosMsg::Any(AnyMsg { type_url: s, value: Binary::from(vec![1, 2, 3]) }),
+        #[cfg(feature = "full")]
         "stargate" => CosmosMsg::Stargate { type_url: s, value: Binary::from(vec![9]) },
         _ => return None,
     })
